@@ -127,6 +127,14 @@ class ThermochemIncomplete(ThermochemBase):
         """Delete |eq_ND_S_ref| data."""
         self.ND_S_ref = None
 
+    def _outside_range(self, T):
+        # without heat capacity data the declared range need not contain T_ref
+        try:
+            self.check_range(T)
+        except OutsideCorrelationError:
+            return True
+        return False
+
     def get_CpoR(self, T):
         if not self.ND_Cp_data:
             raise IncompleteDataError(
@@ -146,7 +154,7 @@ class ThermochemIncomplete(ThermochemBase):
             raise IncompleteDataError(
                 "Cannot evaluate ND_H: no enthalpy data is available")
         elif not self.ND_Cp_data:
-            if T != self.T_ref:
+            if T != self.T_ref or self._outside_range(T):
                 warn(
                     "Evaluation of ND_H_ref with (T=%g <=> T_ref=%g) will not"
                     " be corrected because heat capacity data is not"
@@ -167,7 +175,7 @@ class ThermochemIncomplete(ThermochemBase):
             raise IncompleteDataError(
                 "Cannot evaluate ND_S: no entropy data is available")
         elif not self.ND_Cp_data:
-            if T != self.T_ref:
+            if T != self.T_ref or self._outside_range(T):
                 warn(
                     "Evaluation of ND_S_ref with (T=%g <=> T_ref=%g) will not"
                     " be corrected because heat capacity data is not"
